@@ -131,7 +131,7 @@ func (e *endpoint) WritePacket(r *stack.Route, hdr buffer.Prependable, payload b
 	}
 
 	//如果路由信息中有配置源mac地址，则使用，否则使用本网卡地址
-	if r.LocalAddress != "" {
+	if r.LocalLinkAddress != "" {
 		ethHdr.SrcAddr = r.LocalLinkAddress
 	} else {
 		ethHdr.SrcAddr = e.addr
